@@ -315,13 +315,9 @@ func roundTrip(r *vk.Run, zone string, proto any, sl []slot, set map[int]reflect
 	cs.Bytes = vk.Hex(enc)
 	// decode from one input buffer that every round trip of this process reuses (a decoder must not
 	// keep a reference to its input), and overwrite it afterwards (results must not alias it)
+	orig := append([]byte{}, enc...)
 	copy(sharedInput[:], enc)
 	enc = sharedInput[:64:64]
-	defer func() {
-		for i := range sharedInput {
-			sharedInput[i] ^= 0xff
-		}
-	}()
 	decoders := map[string]func() (reflect.Value, error){
 		"Unmarshal": func() (reflect.Value, error) {
 			p := reflect.New(t)
@@ -339,6 +335,7 @@ func roundTrip(r *vk.Run, zone string, proto any, sl []slot, set map[int]reflect
 	for name, dec := range decoders {
 		var got reflect.Value
 		var derr error
+		copy(sharedInput[:], orig)
 		if p, msg, frame := vk.Guard(func() { got, derr = dec() }); p {
 			r.Violation("C05/"+name+"-panic/"+frame, t.Name()+": "+msg, "roundtrip", cs)
 			continue
@@ -350,6 +347,10 @@ func roundTrip(r *vk.Run, zone string, proto any, sl []slot, set map[int]reflect
 		if got.Type() != t {
 			r.Violation("C05/"+name+"/wrong-type", fmt.Sprintf("%s decoded as %s", t.Name(), got.Type()), "roundtrip", cs)
 			continue
+		}
+		// the caller reuses its buffer: the decoded value must not follow
+		for i := range sharedInput {
+			sharedInput[i] ^= 0xff
 		}
 		for _, s := range sl {
 			a, b := v.FieldByIndex(s.index), got.FieldByIndex(s.index)
